@@ -91,6 +91,14 @@ func wrappers() []wrapper {
 			}
 			return Val{Err: e, Marked: m, Annotated: true}
 		}},
+		// literal basic code, no enhanced code, arbitrary cause (the shape of the 450 of
+		// check.command and of the 554 "Malformed Date header" of the submission code)
+		{"SMTPError{450, Err}", func(v Val) Val {
+			return Val{Err: &exterrors.SMTPError{Code: 450, Message: "Internal server error", Err: v.Err}, Marked: 1, Annotated: true}
+		}},
+		{"SMTPError{554, Err}", func(v Val) Val {
+			return Val{Err: &exterrors.SMTPError{Code: 554, Message: "Malformed message", Err: v.Err}, Marked: 0, Annotated: true}
+		}},
 	}
 }
 
